@@ -242,6 +242,7 @@ def run(ctx):
 
 
 def replay(ctx, rep):
-    if rep.get("signature") in ("restored-in-a-state-never-built", "failing-check-not-executed"):
+    if rep.get("signature") in ("restored-in-a-state-never-built", "failing-check-not-executed", "tainted-target-not-executed-after-failed-run",
+                                "reexecuted-in-a-state-just-built"):
         return H2.replay_oracles(ctx, rep)
     return H.replay_history(ctx, rep)
